@@ -1,8 +1,168 @@
-(* placeholder while the pipeline is brought up *)
+(* Property C08 -- "Numeric field text conversions are exact inverses".
+   Only theorem statements: each is closed by [exact] of a lemma proved in C08/NumIntProofs.v or
+   C08/NumFloatProofs.v and followed by Print Assumptions.
+   Models: itoa_int / itoa_uint / fast_atoi (NumInt.v), modp_dtoa / fast_atof (NumFloat.v);
+   specification: canon_dec, c08_int_ok, c08_atoi_ok, c08_float_ok ... (Spec_C08.v). *)
 From Coq Require Import ZArith List Bool.
-From F8 Require Import C08.NumInt C08.Spec_C08.
+From Flocq Require Import IEEE754.BinarySingleNaN.
+From F8 Require Import C08.NumInt C08.NumFloat C08.Spec_C08 C08.NumIntProofs C08.NumFloatProofs.
 Import ListNotations.
 Local Open Scope Z_scope.
-Theorem c08_atoi_neg_refuted : exists v, -2147483648 <= v < 0 /\ int_roundtrip v = Some (canon_dec v, -25).
-Proof. exists (-5). vm_compute. repeat split; congruence. Qed.
+
+(* ================================================================================ integers *)
+
+(* Every int32 (INT_MIN included) is rendered by itoa<int> as its canonical decimal text. *)
+Theorem c08_itoa_canonical : forall v,
+  -2147483648 <= v < 2147483648 -> itoa_int v 10 = Some (canon_dec v).
+Proof. exact itoa_int_canonical_lemma. Qed.
+Print Assumptions c08_itoa_canonical.
+
+(* Every uint32 is rendered by itoa<unsigned> as its canonical decimal text. *)
+Theorem c08_utoa_canonical : forall v,
+  0 <= v < 4294967296 -> itoa_uint v 10 = Some (canon_dec v).
+Proof. exact itoa_uint_canonical_lemma. Qed.
+Print Assumptions c08_utoa_canonical.
+
+(* The specification's text really denotes the value (sanity of canon_dec: Horner evaluation of
+   its digits, with the sign, gives v back and the text is recognised as canonical). *)
+Theorem c08_canon_dec_denotes : forall v, Z.abs v < 10 ^ 25 -> canon_value (canon_dec v) = Some v.
+Proof. exact canon_dec_denotes_lemma. Qed.
+Print Assumptions c08_canon_dec_denotes.
+
+(* Non-negative int32: Field<int> print then parse is the identity, i.e. the property's oracle
+   accepts the model's round trip. *)
+Theorem c08_atoi_itoa_nonneg : forall v, 0 <= v < 2147483648 ->
+  int_roundtrip v = Some (canon_dec v, v) /\ c08_int_ok v (canon_dec v) v = true.
+Proof. exact int_roundtrip_nonneg_ok_lemma. Qed.
+Print Assumptions c08_atoi_itoa_nonneg.
+
+(* Every uint32 round-trips through itoa<unsigned> / fast_atoi<unsigned>. *)
+Theorem c08_atoi_utoa : forall v, 0 <= v < 4294967296 -> uint_roundtrip v = Some (canon_dec v, v).
+Proof. exact uint_roundtrip_lemma. Qed.
+Print Assumptions c08_atoi_utoa.
+
+(* Parser clause on ARBITRARY text for the unsigned parsers (tags, lengths, sequence numbers):
+   whenever the text is the canonical decimal of a value of the type, that value is returned. *)
+Theorem c08_atoi_unsigned_any_text : forall text,
+  c08_atoi_ok 0 4294967295 text (fast_atoi T_uint 0 text) = true /\
+  c08_atoi_ok 0 65535 text (fast_atoi T_ushort 0 text) = true.
+Proof. exact atoi_unsigned_any_text_lemma. Qed.
+Print Assumptions c08_atoi_unsigned_any_text.
+
+(* fast_atoi<int> meets the parser clause on every text that does not denote a negative int. *)
+Theorem c08_atoi_int_partial : forall text,
+  match canon_value text with Some v => 0 <=? v | None => true end = true ->
+  c08_atoi_ok (-2147483648) 2147483647 text (fast_atoi T_int 0 text) = true.
+Proof. exact atoi_int_ok_partial_lemma. Qed.
+Print Assumptions c08_atoi_int_partial.
+
+(* Negative int32: the property FAILS.  fast_atoi has no sign handling; the text "-d1..dk" is
+   read as the number with leading "digit" -3, i.e. -v - 3*10^k wrapped to 32 bits ... *)
+Theorem c08_atoi_neg_characterised : forall v, -2147483648 <= v < 0 ->
+  int_roundtrip v = Some (canon_dec v, sint32 (- v - 3 * 10 ^ dlen (- v))).
+Proof. exact int_roundtrip_neg_lemma. Qed.
+Print Assumptions c08_atoi_neg_characterised.
+
+(* ... which differs from v for every negative int32 except -2115098112 (where the wrap-around
+   happens to land on the value). *)
+Theorem c08_atoi_neg_refuted : forall v r t, -2147483648 <= v < 0 -> v <> -2115098112 ->
+  int_roundtrip v = Some (t, r) -> r <> v.
+Proof. exact int_roundtrip_neg_wrong_lemma. Qed.
 Print Assumptions c08_atoi_neg_refuted.
+
+(* --- the same parse under the C++ rules (what a build without -fwrapv / with UBSan observes):
+   fast_atoi_checked flags a left shift of a negative value and any signed overflow of
+   ((retval << 3) + (retval << 1) + *str) - '0', evaluated left to right. *)
+
+(* [0, 2147483600): no rule is broken and the value comes back. *)
+Theorem c08_atoi_checked_partial : forall v, 0 <= v < 2147483600 ->
+  int_roundtrip_checked v = Some (canon_dec v, AC_ok v) /\
+  c08_int_strict_ok v (canon_dec v) (Some v) = true.
+Proof. exact int_roundtrip_checked_ok_lemma. Qed.
+Print Assumptions c08_atoi_checked_partial.
+
+(* [2147483600, INT_MAX]: the property FAILS -- the last digit's character code is added before
+   '0' is subtracted, 10*(v/10) + 48 + d > INT_MAX: signed integer overflow (undefined). *)
+Theorem c08_atoi_top_overflow_refuted : forall v, 2147483600 <= v < 2147483648 ->
+  int_roundtrip_checked v = Some (canon_dec v, AC_overflow).
+Proof. exact int_roundtrip_checked_top_lemma. Qed.
+Print Assumptions c08_atoi_top_overflow_refuted.
+
+(* every negative int32: the '-' leaves retval = -3 which is then shifted left (undefined). *)
+Theorem c08_atoi_neg_shift_refuted : forall v, -2147483648 <= v < 0 ->
+  int_roundtrip_checked v = Some (canon_dec v, AC_shift_negative).
+Proof. exact int_roundtrip_checked_neg_lemma. Qed.
+Print Assumptions c08_atoi_neg_shift_refuted.
+
+(* the checked parser refines the wrapping one (used for all the theorems above): whenever no
+   rule is broken both return the same value, on every text. *)
+Theorem c08_atoi_checked_refines : forall str v,
+  fast_atoi_checked str = AC_ok v -> fast_atoi T_int 0 str = Some v.
+Proof. exact checked_refines_lemma. Qed.
+Print Assumptions c08_atoi_checked_refines.
+
+(* ================================================================================== doubles *)
+
+(* The general law is FALSE for the faithful model; four independent counterexamples, each inside
+   the property's domain (finite, |v| < 2^31, precision 0..9) and rejected by the oracle. *)
+
+(* 0.95 at precision 1 -> "0.1" (tie branch without roll-over) *)
+Theorem c08_dtoa_rollover_refuted :
+  let v := f64_of_bits 0x3FEE666666666666 in
+  c08_in_domain v 1 = true /\ fst (float_roundtrip v 1) = DT_text [48; 46; 49] /\
+  c08_render_ok v 1 [48; 46; 49] = false /\ roundtrip_ok v 1 = false.
+Proof. exact dtoa_rollover_refuted_lemma. Qed.
+Print Assumptions c08_dtoa_rollover_refuted.
+
+(* 0.45 at precision 1 -> "0.4" although "0.5" is the correct rounding (double rounding) *)
+Theorem c08_dtoa_inexact_half_refuted :
+  let v := f64_of_bits 0x3FDCCCCCCCCCCCCD in
+  c08_in_domain v 1 = true /\ fst (float_roundtrip v 1) = DT_text [48; 46; 52] /\
+  c08_render_ok v 1 [48; 46; 52] = false /\ c08_render_ok v 1 [48; 46; 53] = true /\
+  roundtrip_ok v 1 = false.
+Proof. exact dtoa_inexact_half_refuted_lemma. Qed.
+Print Assumptions c08_dtoa_inexact_half_refuted.
+
+(* 2147483647.5 -> sprintf("%e") *)
+Theorem c08_dtoa_sliver_refuted :
+  let v := f64_of_bits 0x41DFFFFFFFE00000 in
+  c08_in_domain v 2 = true /\ float_roundtrip v 2 = (DT_sprintf, None) /\ roundtrip_ok v 2 = false.
+Proof. exact dtoa_sliver_refuted_lemma. Qed.
+Print Assumptions c08_dtoa_sliver_refuted.
+
+(* the largest double below 2^31, precision 0: ++whole overflows int *)
+Theorem c08_dtoa_overflow_refuted :
+  let v := f64_of_bits 0x41DFFFFFFFFFFFFF in
+  c08_in_domain v 0 = true /\ float_roundtrip v 0 = (DT_overflow, None) /\ roundtrip_ok v 0 = false.
+Proof. exact dtoa_overflow_refuted_lemma. Qed.
+Print Assumptions c08_dtoa_overflow_refuted.
+
+(* "38.85" is rendered correctly but parsed one ulp low *)
+Theorem c08_atof_inexact_refuted :
+  let v := f64_of_bits 0x40436CCCCCCCCCCD in
+  let t := [51; 56; 46; 56; 53] in
+  c08_in_domain v 2 = true /\ fst (float_roundtrip v 2) = DT_text t /\
+  c08_render_ok v 2 t = true /\
+  bits_of_f64 (fast_atof t) = 0x40436CCCCCCCCCCC /\ c08_parse_ok t (fast_atof t) = false /\
+  c08_parse_ok t v = true /\ roundtrip_ok v 2 = false.
+Proof. exact atof_inexact_refuted_lemma. Qed.
+Print Assumptions c08_atof_inexact_refuted.
+
+(* What IS true: every integral double of magnitude below 2^31 (the double nearest to -- here:
+   equal to -- the integer n) renders, at every precision 0..9, as the canonical decimal of n
+   (followed by ".0" when the precision is not 0), and fast_atof returns exactly the same double. *)
+Theorem c08_dtoa_int_partial : forall n p, Z.abs n < 2147483648 -> 0 <= p <= 9 ->
+  float_roundtrip (f_of_Z n) p =
+  (DT_text (canon_dec n ++ (if p =? 0 then [] else [46; 48])), Some (f_of_Z n)).
+Proof. exact float_roundtrip_int_lemma. Qed.
+Print Assumptions c08_dtoa_int_partial.
+
+(* Non-vacuity: INT_MIN meets the hypotheses of the integer theorems and of the integral-double
+   theorem (as -2147483647 - 1 is outside the latter, its neighbour is used there). *)
+Theorem c08_nonvacuous :
+  itoa_int (-2147483648) 10 = Some [45; 50; 49; 52; 55; 52; 56; 51; 54; 52; 56] /\
+  int_roundtrip 2147483647 = Some ([50; 49; 52; 55; 52; 56; 51; 54; 52; 55], 2147483647) /\
+  fst (float_roundtrip (f_of_Z (-2147483647)) 9) =
+    DT_text [45; 50; 49; 52; 55; 52; 56; 51; 54; 52; 55; 46; 48].
+Proof. exact c08_nonvacuous_lemma. Qed.
+Print Assumptions c08_nonvacuous.
